@@ -524,8 +524,8 @@ class CallClient(Client):
         return ([state] if True in r else []), ([state] if False in r else [])
 
 
-def newton(repo, run):
-    rid = run.rule("C02.4", "Newton acceptance: (a) the stored success flag implies the solver's own flag AND residual < tolerance; "
+def newton(repo, run, rule_id="C02.4"):
+    rid = run.rule(rule_id, "Newton acceptance: (a) the stored success flag implies the solver's own flag AND residual < tolerance; "
                             "(b) typestate over __call__: no return is reachable with an implicit method whose last stage solve failed, "
                             "the retry loop is bounded and exhaustion raises", floor=5)
     step = repo.get(ITY, extract.RK + ".step")
@@ -572,7 +572,7 @@ def newton(repo, run):
             why = "the stored flag ignores the solver's own success flag"
     run.judged(rid, "acceptance flag: %s" % (src(final) if final is not None else "<missing>"), ok=ok)
     if not ok:
-        run.report("C02.4", ITY, final if final is not None else nr, "an implicit step can be marked as solved without being solved: " + why)
+        run.report(rule_id, ITY, final if final is not None else nr, "an implicit step can be marked as solved without being solved: " + why)
     # consumer reads the same key
     call = repo.get(ITY, extract.RK + ".__call__")
     run.analysed_fn(ITY, call)
@@ -592,23 +592,23 @@ def newton(repo, run):
     run.judged(rid, "typestate of __call__: %d return states, %d exceptional exits, %d abstract steps" % (len(out.ret), len(out.exc), eng.visits),
                ok=not bad)
     for s, n in bad[:1]:
-        run.report("C02.4", ITY, n, "a `return` is reachable for an implicit method (adaptive=%s) whose last stage solve %s: an unsolved "
+        run.report(rule_id, ITY, n, "a `return` is reachable for an implicit method (adaptive=%s) whose last stage solve %s: an unsolved "
                                     "implicit step is handed back as accepted" % (s[1], "failed" if s[2] == "bad" else "was never attempted"),
                    text="return reachable with unsolved implicit stages (adaptive=%s, redo=%s)" % (s[1], s[3]))
     # implicit methods must reach the acceptance logic at all: some path returns ok for implicit
     reach = [s for (s, n) in out.ret if s[0] and s[2] == "ok"]
     run.judged(rid, "implicit methods can return after a successful solve", ok=bool(reach))
     if not reach:
-        run.report("C02.4", ITY, call, "no path of __call__ returns a solved implicit step", text="no accepting path for implicit methods")
+        run.report(rule_id, ITY, call, "no path of __call__ returns a solved implicit step", text="no accepting path for implicit methods")
     # retry loop bounded: every For in __call__ containing self.step iterates over range(...)
     loops = [st for st in walk_no_nested(call) if isinstance(st, (ast.For, ast.While)) and any(
         isinstance(c, ast.Call) and dotted(c.func) == "self.step" for c in ast.walk(st))]
     okb = bool(loops) and all(isinstance(l, ast.For) and isinstance(l.iter, ast.Call) and dotted(l.iter.func) == "range" for l in loops)
     run.judged(rid, "retry loop is a bounded `for _ in range(...)`", ok=okb)
     if not okb:
-        run.report("C02.4", ITY, loops[0] if loops else call, "the retry loop around self.step is not bounded by a range(...)", text="retry loop bound")
+        run.report(rule_id, ITY, loops[0] if loops else call, "the retry loop around self.step is not bounded by a range(...)", text="retry loop bound")
     fail = [(s, t, n) for (s, t, n) in out.exc if t == "FailedToMeetTolerances"]
     run.judged(rid, "exhausted retries raise FailedToMeetTolerances (%d raising states)" % len(fail), ok=bool(fail))
     if not fail:
-        run.report("C02.4", ITY, call, "no path raises FailedToMeetTolerances: exhausting the retries falls through to the return",
+        run.report(rule_id, ITY, call, "no path raises FailedToMeetTolerances: exhausting the retries falls through to the return",
                    text="missing raise after retry loop")
